@@ -74,6 +74,13 @@ def scale_values(rng, shard, nshards, tier):
     vals.append(np.array(b))
     # random doubles (not float32-representable)
     vals.append(np.exp(rng.uniform(np.log(1e-12), np.log(1e6), 2000 if tier == "quick" else 50000)))
+    # exact ties of the multiplier rounding: doubles whose significand * 2^31 is m + 1/2 (lowest significand bit at 2^-32), for even and odd m - the reference
+    # rounds them away from zero, round-half-even differs for even m; such scales arise as double-precision products of float32 scales, never from one float32 scale
+    nt = 600 if tier == "quick" else 20000
+    m = rng.integers(1 << 30, 1 << 31, nt)
+    m[: nt // 2] &= ~np.int64(1)
+    ties = np.ldexp((m.astype(np.float64) + 0.5) / float(1 << 31), rng.integers(-40, 20, nt))
+    vals.append(ties)
     return np.concatenate(vals)
 
 
